@@ -257,13 +257,18 @@ def run_case(case):
         import random as _random
         from pjplan import DirectCalendar as _Direct
         edit_names = [n for n, _ in (case.get('edit_calendars') or [])]
-        in_place = bool(edit_names) and _zlib.crc32(json.dumps(case['tasks'], sort_keys=True).encode()) % 2 == 0
+        # (decided from the resources and the bound only: the paired runs of C08's independence clause differ in their tasks
+        # and must see the same calendars)
+        in_place = bool(edit_names) and _zlib.crc32(json.dumps([case['resources'], case['pbound']], sort_keys=True).encode()) % 2 == 0
         holidays = {}
         for r in case['resources']:
             cal = build_calendar(r['cal'])
             if in_place and r['name'] in edit_names:
-                holidays[r['name']] = _Direct({})
-                cal = cal - holidays[r['name']]          # nothing dated yet: the difference is the calendar itself
+                # two shapes, both equal to the calendar itself as long as nothing is dated: `dated | cal` (a dated day
+                # overrides the calendar: capacity appears or changes) and `cal - dated` (32 units taken off: a day off)
+                mode = 'sub' if _zlib.crc32(('%r/%s' % (r['name'], case['pbound'])).encode()) % 3 else 'or'
+                holidays[r['name']] = (_Direct({}), mode)
+                cal = (holidays[r['name']][0] | cal) if mode == 'or' else (cal - holidays[r['name']][0])
             supplied[r['name']] = Resource(r['name'], cal)
         # tasks outside the scheduled WBS
         other = WBS()
@@ -308,6 +313,19 @@ def run_case(case):
         if case.get('outcome_only'):
             # robustness stream (C14): inputs outside the domain of the model (e.g. calendars whose validity bounds
             # carry a time of day); only the outcome class of calc is observed
+            if case.get('task_aware'):
+                # a user-defined resource whose capacity depends on the TASK it is asked for (IResource passes the task):
+                # no capacity for the listed (task id, day) pairs, the calendar's answer otherwise
+                blocked = set((tid, d) for tid, d in case['task_aware'])
+
+                class TaskAware(Resource):
+                    def get_available_units(self, date, task=None):
+                        u = Resource.get_available_units(self, date, task)
+                        if task is not None and (task.id, to_us(date) // DAY_US) in blocked:
+                            return 0
+                        return u
+                for nm in list(supplied):
+                    supplied[nm] = TaskAware(nm, supplied[nm].calendar)
             kw = {'resources': list(supplied.values()), 'balance_resources': case['balance']}
             if case.get('default_estimate') is not None:
                 kw['default_estimate'] = num(case['default_estimate'], False)
@@ -322,8 +340,10 @@ def run_case(case):
                 rt = list(sch0.schedule.tasks)
                 res['all_dated'] = all(t.start is not None and t.end is not None for t in rt)
                 booked = {}
+                days = {}
                 for r in sch0.resource_usage.rows():
                     booked[id(r.task)] = booked.get(id(r.task), Fraction(0)) + Fraction(r.units)
+                    days.setdefault(id(r.task), []).append(to_us(r.date))
                 src = {t.id: t for t in wbs.tasks}
                 work = []
                 for t in rt:
@@ -332,7 +352,8 @@ def run_case(case):
                                  'user_start': o is not None and o.start is not None, 'user_end': o is not None and o.end is not None,
                                  'est': None if o is None or o.estimate is None else str(Fraction(o.estimate)),
                                  'spent': None if o is None or o.spent is None else str(Fraction(o.spent)),
-                                 'reserved': str(booked.get(id(t), Fraction(0)))})
+                                 'reserved': str(booked.get(id(t), Fraction(0))),
+                                 'row_dates': days.get(id(t), []), 'start': to_us(t.start), 'end': to_us(t.end)})
                 res['work'] = work
             except Timeout:
                 BUDGET['timeouts'] += 1
@@ -450,13 +471,15 @@ def run_case(case):
                 t.estimate = e
             for name, cal in case['edit_calendars']:
                 if name in holidays:
+                    direct, mode = holidays[name]
                     lrng = _random.Random('%s/%s' % (name, case['pbound']))
-                    d0 = case['pbound'] // DAY_US + (0 if fwd else -12)
+                    # the days the observed calculation will book first: from the later of project start and clock on
+                    d0 = (max(case['pbound'], case['now']) // DAY_US) if fwd else (case['pbound'] // DAY_US - 12)
                     more = {}
                     for _ in range(lrng.randint(1, 6)):
-                        more[(d0 + lrng.randint(0, 12)) * DAY_US] = lrng.choice([1, 2, 4, 8, 8, 16, 32])
-                    holidays[name].set_units({from_us(k): v for k, v in more.items()})
-                    out.setdefault('edited_in_place', []).append([name, [[k, ['i', v]] for k, v in more.items()]])
+                        more[(d0 + lrng.randint(0, 12)) * DAY_US] = 32 if mode == 'sub' else lrng.choice([1, 2, 4, 8, 8, 16, 32])
+                    direct.set_units({from_us(k): v for k, v in more.items()})
+                    out.setdefault('edited_in_place', []).append([name, mode, [[k, ['i', v]] for k, v in more.items()]])
                 elif name in supplied:
                     supplied[name].calendar = build_calendar(cal)
         before = snapshot(wbs, ext)
